@@ -12,7 +12,7 @@ use std::io;
 use std::sync::{Arc, Mutex};
 use std::time::Duration;
 
-const KINDS: [io::ErrorKind; 5] = [io::ErrorKind::WouldBlock, io::ErrorKind::ConnectionRefused, io::ErrorKind::Interrupted, io::ErrorKind::BrokenPipe, io::ErrorKind::Other];
+const KINDS: [io::ErrorKind; 6] = [io::ErrorKind::WouldBlock, io::ErrorKind::ConnectionRefused, io::ErrorKind::Interrupted, io::ErrorKind::BrokenPipe, io::ErrorKind::Other, io::ErrorKind::InvalidInput];
 
 struct Scripted { log: Arc<Mutex<Vec<String>>>, script: Vec<usize> }
 impl MetricSink for Scripted {
@@ -20,7 +20,7 @@ impl MetricSink for Scripted {
         let mut l = self.log.lock().unwrap();
         let k = l.len();
         l.push(m.to_string());
-        match self.script.get(k).copied().unwrap_or(0) { 0 => Ok(m.len()), n => Err(io::Error::new(KINDS[(n - 1) % 5], "scripted refusal")) }
+        match self.script.get(k).copied().unwrap_or(0) { 0 => Ok(m.len()), n => Err(io::Error::new(KINDS[(n - 1) % 6], "scripted refusal")) }
     }
 }
 
@@ -78,17 +78,17 @@ pub fn check(calls: &[(char, char, char)], script: &[usize]) -> Vec<(String, Str
         match res {
             Some(Ok(text)) => {
                 if invalid { fails.push(("C03".to_string(), format!("{}: rejected value returned Ok", who))); }
-                else if outcome != 0 { fails.push(("C03".to_string(), format!("{}: the sink refused ({:?}) during this call but Ok was returned", who, KINDS[(outcome - 1) % 5]))); }
+                else if outcome != 0 { fails.push(("C03".to_string(), format!("{}: the sink refused ({:?}) during this call but Ok was returned", who, KINDS[(outcome - 1) % 6]))); }
                 else if sent.last() != Some(&text) { fails.push(("C03".to_string(), format!("{}: returned metric {:?} is not the text the sink accepted {:?}", who, text, sent))); }
             }
             Some(Err(e)) => {
                 if invalid { if e.kind() != ErrorKind::InvalidInput { fails.push(("C03".to_string(), format!("{}: rejected value reported as {:?}", who, e.kind()))); } }
                 else if outcome == 0 { fails.push(("C03".to_string(), format!("{}: the sink accepted but an error ({:?}) was returned", who, e.kind()))); }
-                else if e.kind() != ErrorKind::IoError || io_kind_of(&e) != Some(KINDS[(outcome - 1) % 5]) { fails.push(("C03".to_string(), format!("{}: sink refused with {:?} but the error is {:?} carrying {:?}", who, KINDS[(outcome - 1) % 5], e.kind(), io_kind_of(&e)))); }
+                else if e.kind() != ErrorKind::IoError || io_kind_of(&e) != Some(KINDS[(outcome - 1) % 6]) { fails.push(("C03".to_string(), format!("{}: sink refused with {:?} but the error is {:?} carrying {:?}", who, KINDS[(outcome - 1) % 6], e.kind(), io_kind_of(&e)))); }
                 if !new_errs.is_empty() { fails.push(("C03".to_string(), format!("{}: error handler invoked by a non-quiet call", who))); }
             }
             None => {
-                let expect = if invalid { Some((ErrorKind::InvalidInput, None)) } else if outcome != 0 { Some((ErrorKind::IoError, Some(KINDS[(outcome - 1) % 5]))) } else { None };
+                let expect = if invalid { Some((ErrorKind::InvalidInput, None)) } else if outcome != 0 { Some((ErrorKind::IoError, Some(KINDS[(outcome - 1) % 6]))) } else { None };
                 match (expect, new_errs.as_slice()) {
                     (None, []) => {}
                     (Some(x), [y]) if x == *y => {}
@@ -105,7 +105,7 @@ pub fn search(prop: &str, seed: u64, budget: u64) -> Option<(String, Vec<(String
     for _ in 0..budget.min(30000) {
         let n = 1 + rng.below(4) as usize;
         let calls: Vec<(char, char, char)> = (0..n).map(|_| (['c', 't', 'g', 'h', 's'][rng.below(5) as usize], ['p', 't', 'q'][rng.below(3) as usize], ['v', 'v', 'i'][rng.below(3) as usize])).collect();
-        let script: Vec<usize> = (0..6).map(|_| if rng.below(2) == 0 { 0 } else { 1 + rng.below(5) as usize }).collect();
+        let script: Vec<usize> = (0..6).map(|_| if rng.below(2) == 0 { 0 } else { 1 + rng.below(6) as usize }).collect();
         let fails = check(&calls, &script);
         if fails.iter().any(|(p, _)| p == prop) {
             let case = format!("calls={};script={}", calls.iter().map(|(a, b, c)| format!("{}{}{}", a, b, c)).collect::<Vec<_>>().join(","), script.iter().map(|x| x.to_string()).collect::<Vec<_>>().join(","));
